@@ -20,6 +20,18 @@ theorem failed_latches (st : Stream) (data : Bytes) (snk : Sink) (h : st.state =
     st.finish snk = (snk, .error .lzma) :=
   ⟨writeS_none st data snk h, flush_none st snk h, finish_none st snk h⟩
 
+/-- … and the `Write` trait's `write_all` (std's default loop) cannot report a non-empty buffer as
+written on a failed stream: it fails (`WriteZero`), leaving sink and stream alone. -/
+theorem failed_latches_writeAll (st : Stream) (data : Bytes) (snk : Sink) (h : st.state = none)
+    (hd : data ≠ []) : st.writeAll data snk = (snk, st, .error .io) := by
+  cases data with
+  | nil => exact absurd rfl hd
+  | cons b bs =>
+    have hf : feed (bs.length + 1 + 1) st (b :: bs) 0 snk = (snk, st, .ok 0) := by
+      rw [feed]
+      simp [writeS_none st (b :: bs) snk h]
+    simp [Stream.writeAll, hf]
+
 /-- non-vacuity: a stream that failed on a bad properties byte -/
 example : ((Stream.newWithOptions {}).writeS [255] {}).2.1.state = none := by rfl
 
@@ -94,6 +106,20 @@ theorem size_reached_latches (st : Stream) (rs : RunState) (n : Nat) (data : Byt
     st.writeS data snk = (snk, { st with tmp := [], state := some (.data rs) }, .ok 0) := by
   unfold writeS
   rw [write_size_reached st rs data snk n hst hn hlen]
+
+/-- … and `write_all` of a non-empty buffer fails (`WriteZero`) without touching the sink. -/
+theorem size_reached_latches_writeAll (st : Stream) (rs : RunState) (n : Nat) (data : Bytes) (snk : Sink)
+    (hst : st.state = some (.data rs)) (hn : rs.decoder.unpackedSize = some n)
+    (hlen : rs.output.len ≥ n) (hd : data ≠ []) :
+    st.writeAll data snk = (snk, { st with tmp := [], state := some (.data rs) }, .error .io) := by
+  cases data with
+  | nil => exact absurd rfl hd
+  | cons b bs =>
+    have hf : feed (bs.length + 1 + 1) st (b :: bs) 0 snk =
+        (snk, { st with tmp := [], state := some (.data rs) }, .ok 0) := by
+      rw [feed]
+      simp [size_reached_latches st rs n (b :: bs) snk hst hn hlen]
+    simp [Stream.writeAll, hf]
 
 /-- … hence for every later sequence of writes: all report `ok 0`, the sink is unchanged,
 the run state is unchanged. -/
